@@ -1,6 +1,6 @@
 ENGINES = [
     {"name": "SX", "path": "/verif/symx", "kind_free_text": "concolic value-symbolic execution of irispie's real numeric kernels on numpy object arrays of z3 Real terms; z3 decides each obligation for all values; sat models are replayed in floats",
-     "serves_properties": ["C02"]},
+     "serves_properties": ["C02", "C13"]},
     {"name": "XH", "path": "/verif/xh", "kind_free_text": "CrossHair (symbolic execution of Python with z3) on harnesses calling the real irispie.dates / index code",
      "serves_properties": []},
 ]
@@ -12,4 +12,7 @@ CHECKS = {
                 text="Bounded SMT check: each differentiation rule of Atom/adaptations is executed on arbitrary symbolic (value, derivative) operands and z3 shows the result equals the calculus rule for every real in the rule's domain (inductive step for trees of any size); functions not implemented on Atom are executed and must raise.",
                 note="Reals not floats; LOG/EXP/SQRT uninterpreted with normalising constructors; scipy expit replaced by its definition; stacked-time Jacobian assembly outside the claim."),
 }
+CHECKS["C13"] = dict(engine="SX", technique="symbolic execution of the real Series temporal code on cell-tagged object arrays + SMT (QF_UFNRA) equality with the documented formulas",
+    text="Bounded SMT check: diff/diff_log/pct/roc (integer and keyword shifts), annualised variants, rate conversions and the four cumulations are run on Series whose cells are distinct symbolic reals; z3 shows every output cell equals the documented formula of the right input cells (and cumulation returns the original terms) for all positive reals, on every enumerated structure.",
+    note="Structure (frequency, offset, length<=15, variants<=2, <=1 missing period, shift list) enumerated; reals not floats; float constants within 2^-50 of a small rational are read as that rational; daily frequency outside the claim.")
 NOT_APPLICABLE = {f"C{i:02d}": _PENDING for i in range(1, 21)}
